@@ -421,9 +421,10 @@ class FTPProcessorSession(BaseProcessorSession):
 
             try:
                 os.symlink(link_target, symlink_path)
-            except OSError as error:
+            except (OSError, ValueError) as error:
                 # The name comes from the listing: listed twice, already
-                # there from an earlier run, or naming a missing directory.
+                # there from an earlier run, naming a missing directory, or
+                # containing a NUL.
                 _logger.warning(
                     _('Could not create symbolic link {symlink_path}: {error}'),
                     symlink_path=symlink_path, error=error
